@@ -92,6 +92,14 @@ func gen(g *zv.Gen) {
 			}
 		}
 	}
+	// … and the same on handshakes in which the server asks for a client certificate (every ClientAuth policy, client
+	// with and without a certificate of each key type), TLS 1.0 - 1.3, full and resumed: the client's Certificate /
+	// CertificateVerify follow the server Finished, i.e. the point of the transcript the TLS 1.3 exporter is bound to
+	for rep := g.N(1, 4); rep > 0; rep-- {
+		genClientAuth(g)
+	}
+	// concurrent calls of ONE exporter closure
+	genPar(g, suites13)
 	versions := []int{0x0301, 0x0302, 0x0303}
 	bl := boundaryLens()
 	var lens []int // every output length 0..512
@@ -216,4 +224,48 @@ func gen(g *zv.Gen) {
 	// 5. the derived closures / running hashes used the way a connection uses them: many queries on ONE object
 	genSeq(g, suites, suites13, rn)
 	_ = fmt.Sprint
+}
+
+// client-auth grid for livex: (ClientAuth policy, client certificate) pairs whose handshake succeeds
+var clientAuthModes = [][2]string{{"0", "none"}, {"0", "cert"}, {"1", "none"}, {"1", "cert"}, {"2", "cert"}, {"3", "none"}, {"3", "cert"}, {"4", "cert"}}
+
+func genClientAuth(g *zv.Gen) {
+	r := g.Rng
+	servable := map[[2]uint16]bool{}
+	for _, p := range livePairs() {
+		servable[p] = true
+	}
+	k := 0
+	for _, v := range []uint16{0x0301, 0x0302, 0x0303, 0x0304} {
+		var suites []uint16
+		switch v {
+		case 0x0304:
+			suites = []uint16{0x1301, 0x1302, 0x1303}
+		case 0x0303:
+			suites = []uint16{0x002f, 0xc013, 0xc009, 0xc02f, 0xc02b, 0xc030, 0xcca8, 0x009c}
+		default:
+			suites = []uint16{0x002f, 0xc013, 0xc009, 0x0035, 0xc014}
+		}
+		for _, s := range suites {
+			if !servable[[2]uint16{v, s}] {
+				continue
+			}
+			for _, m := range clientAuthModes {
+				cert := m[1]
+				if cert == "cert" {
+					kinds := []string{"ecdsa", "rsa"}
+					if v >= 0x0303 {
+						kinds = append(kinds, "ed25519")
+					}
+					cert = kinds[k%len(kinds)]
+					k++
+				}
+				mode := 0
+				if m[0] != "0" && r.Chance(25) { // some resumed connections (the first one carried the client certificate)
+					mode = 1
+				}
+				g.Emitf("c26 livex %d %d %d %d %s %s", r.U64()>>1, v, s, mode, m[0], cert)
+			}
+		}
+	}
 }
